@@ -229,6 +229,7 @@ pub fn plan(prop: &str, tier: &str) -> Option<Plan> {
                 s.push(e1(prop, "u32", H_GOOD, 0, "look1+mut+ch0+shape", &[], 600, 1, 0, "chk", 40.0));
                 s.push(e1(prop, "u32", H_LOW, 0, "look1+mut+ch0+shape", &[], 300, 1, 0, "chk", 40.0));
                 s.push(e1(prop, "u32", H_GOOD, 0, "bulkbig", &[], 40, 1, 0, "chk", 40.0));
+                s.push(e1(prop, "tk", H_GOOD, 0, "mut1+shape/hintlie", &[], 31, 2, 0, "chk", 40.0));
                 s.push(as_set(e1(prop, "u32", H_GOOD, 0, "bulkbig", &[], 31, 1, 0, "chk", 40.0)));
                 // the whole resize of a 1024-bucket table (897..1010 elements), one deviation at every point
                 s.push(spot(prop, "u32", H_GOOD, "look1+mut+ch0+shape+iterlite", &["cursor"], 890, 1012, "chk", 40.0));
@@ -306,6 +307,9 @@ pub fn plan(prop: &str, tier: &str) -> Option<Plan> {
                 }
                 s.push(e1(prop, "u32", H_GOOD, 0, a1, &fl, 130, 1, 1, "chk", 40.0));
                 s.push(e1(prop, "big", H_GOOD, 0, a1, &fl, 64, 1, 1, "chk", 40.0));
+                // the single-element set calls (replace / get_or_insert* / take ... are in-place updates, lookups, removals)
+                s.push(as_set(e1(prop, "u32", H_GOOD, 0, "skey", &["c02"], 64, 1, 1, "chk", 40.0)));
+                s.push(as_set(e1(prop, "tk", H_LOW, 0, "skey+sshape/skey", &["c02"], 31, 2, 1, "chk", 40.0)));
                 s.push(e1(prop, "u32", H_GOOD, 0, a2, &fl, 31, 2, 1, "chk", 40.0));
                 s.push(e1(prop, "u32", H_LOW, 0, a2, &fl, 31, 2, 1, "chk", 40.0));
                 s.push(e2(prop, "u32", H_GOOD, "look1+mut+ch0+shape2", &fl, 4, "chk", 40.0));
@@ -323,6 +327,10 @@ pub fn plan(prop: &str, tier: &str) -> Option<Plan> {
                 }
                 s.push(e1(prop, "u32", H_GOOD, 0, "mut+ch0+shape", &fl, 31, 3, 1, "chk", 900.0));
                 s.push(e1(prop, "big", H_GOOD, 0, a1, &fl, 130, 1, 1, "chk", 900.0));
+                for &hk in &HS4 {
+                    s.push(as_set(e1(prop, "u32", hk, 0, "skey", &["c02"], 130, 1, 1, "chk", 900.0)));
+                    s.push(as_set(e1(prop, "tk", hk, 0, "skey+sshape/skey", &["c02"], 40, 2, 1, "chk", 900.0)));
+                }
                 s.push(e1(prop, "big", H_LOW, 0, a2, &fl, 40, 2, 1, "chk", 900.0));
                 for &hk in &[H_GOOD, H_LOW] {
                     s.push(e2(prop, "u32", hk, "look1+mut+ch0+shape2", &fl, if hk == H_LOW { 5 } else { 6 }, "chk", 900.0));
@@ -488,6 +496,7 @@ pub fn plan(prop: &str, tier: &str) -> Option<Plan> {
                     s.push(e1(prop, "big", H_GOOD, 0, "look1+mut+ch1+bulk+shape+iterlite", &fl, if prof == "asan" { 31 } else { 40 }, 1, 1, prof, 45.0));
                     s.push(as_set(e1(prop, "big", H_LOW, 0, "skey+sshape", &fl, 31, 1, 1, prof, 45.0)));
                     s.push(e1(prop, "tk", H_GOOD, 0, "nokey", &fl, 40, 1, 0, prof, 45.0));
+                    s.push(e1(prop, "tk", H_GOOD, 0, "hintlie", &fl, 31, 1, 0, prof, 45.0));
                     // old tables of every size emptied again through the removal APIs (cursor vs contents)
                     s.push(sweep(prop, "u32", H_GOOD, if prof == "asan" { 20_000 } else { 60_000 }, &["cursor", "cheap"], &[("drain_old", "1"), ("audit_every", "0")], prof, 45.0));
                     s.push(sweep(prop, "big", H_GOOD, if prof == "asan" { 300 } else { 500 }, &["cursor", "cheap"], &[("drain_old", "1"), ("audit_every", "0")], prof, 45.0));
@@ -660,6 +669,9 @@ pub fn plan(prop: &str, tier: &str) -> Option<Plan> {
                     for &hk in &[H_LOW, H_CONST] {
                         s.push(e1(prop, "u32", hk, 0, "mut1+ch0+shape+fill/mut1+ch0+cap+fill+clone", &fl, 31, 2, 1, prof, 45.0));
                     }
+                    // try_reserve while the allocator refuses anything larger than the current table (Err is fine, Ok must hold)
+                    s.push(e1(prop, "u32", H_GOOD, 0, "mempress", &fl, 130, 1, 0, prof, 45.0));
+                    s.push(e1(prop, "u32", H_LOW, 0, "mut1+shape/mempress", &fl, 31, 2, 0, prof, 45.0));
                     // a nearly full table: bulk removal (tombstones), a reserve that starts a resize, then every capacity argument
                     for &hk in &[H_GOOD, H_LOW] {
                         let mut x = spot(prop, "u32", hk, "rt3/rsv3/shr64+fill", &fl, 25, 30, prof, 45.0);
@@ -687,6 +699,8 @@ pub fn plan(prop: &str, tier: &str) -> Option<Plan> {
                     s.push(e2(prop, "zst", H_GOOD, "mut+shape2+caphuge", &fl, 1, prof, 100.0));
                     s.push(e1(prop, "tk", H_LOW, 0, "mut1+ch0+shape/capall+caphuge+fill", &fl, 33, 2, 1, prof, 1200.0));
                     for &hk in &HS4 {
+                        s.push(e1(prop, "u32", hk, 0, "mempress", &fl, 600, 1, 0, prof, 900.0));
+                        s.push(e1(prop, "u32", hk, 0, "mut1+ch0+shape/mempress", &fl, 40, 2, 0, prof, 900.0));
                         let mut x = spot(prop, "u32", hk, "rt3+mut1/rsv3+shape/shr64+cap+fill", &fl, 22, 31, prof, 1800.0);
                         x.d = 3;
                         s.push(x);
@@ -1053,6 +1067,7 @@ pub fn plan(prop: &str, tier: &str) -> Option<Plan> {
                 base.push(e1(prop, "u32", H_GOOD, 0, "iter", &[], 40, 1, 0, "chk", 45.0)); // incl. nth / skip at the integer limits
                 base.push(e1(prop, "u32", H_GOOD, 0, "nokey", &[], 40, 1, 0, "chk", 45.0));
                 base.push(e1(prop, "u32", H_GOOD, 0, "bulkbig", &[], 31, 1, 0, "chk", 45.0));
+                base.push(e1(prop, "u32", H_GOOD, 0, "hintlie", &[], 31, 1, 0, "chk", 45.0));
                 base.push(e1(prop, "tk", H_TAG, 0, full, &[], 33, 1, 1, "chk", 45.0));
                 base.push(e1(prop, "u32", H_GOOD, 0, "mut1+ch0+shape/capall+caphuge+fill", &["c10"], 24, 2, 1, "chk", 45.0));
                 base.push(e1(prop, "u32", H_GOOD, 0, "capall+caphuge", &["c10"], 130, 1, 0, "chk", 45.0));
